@@ -124,6 +124,7 @@ def generated_documents(tier, seed, n_random=None):
         node.add(key, "simple", alt)
         root, path = gen.wrap_in_parents(node)
         docs.append((f"{typ}.{key}:{alt.tag}:{alt.text}", root, path))
+    docs.extend(gen.block_documents())
     rnd = random.Random(seed)
     n_random = n_random if n_random is not None else (40 if tier != "thorough" else 600)
     for i in range(n_random):
@@ -355,6 +356,12 @@ def b_escape_idempotent(tier, seed):
 # C05 seam: surface renderings
 # ---------------------------------------------------------------------------------------------
 
+# comment spellings between tokens (C05): stars and slashes inside, empty, banner, multi-line, comment openers inside # comments
+C_COMMENT_FORMS = ["/* c */", "/**/", "/***/", "/****/", "/** section **/", "/* note **/", "/*** banner ***/", "/* a * b / c */",
+                   "/* two\n   lines */", "/*\n * boxed\n **/", "/* # not a hash comment */", "/* 'quoted' \"text\" */"]
+HASH_COMMENT_FORMS = ["# comment", "#", "## double", "# has /* an opener", "# has */ a closer", "# 'quote", "# END", "#comment without blank"]
+
+
 class RandomStyle(gen.Style):
     def __init__(self, rnd):
         self.rnd = rnd
@@ -371,9 +378,9 @@ class RandomStyle(gen.Style):
         if r < 0.75:
             return " \f "
         if r < 0.85:
-            return " /* c */ "
+            return " " + self.rnd.choice(C_COMMENT_FORMS) + " "
         if r < 0.93:
-            return " # comment\n  "
+            return " " + self.rnd.choice(HASH_COMMENT_FORMS) + "\n  "
         return "\r\n\t"
 
     def quote(self, s):
@@ -445,3 +452,225 @@ def b_surface(tier, seed):
         if plain(got) != plain(d):
             fails.append(dict(key="corpus:" + os.path.basename(f), diff=_diff(plain(d), plain(got))))
     return _rec("seam/surface-syntax", f"generated documents x {reps} random renderings (case, separators, comments, quote style, LF/CRLF) + whitespace-perturbed corpus files", n, fails)
+
+
+# ---------------------------------------------------------------------------------------------
+# numbers: every way of writing an int / float, in every numeric position (C01, C02, C03, C04)
+# ---------------------------------------------------------------------------------------------
+
+NUMBER_LEXEMES = ["0", "7", "-7", "+7", "007", "0.5", "-0.5", "+0.5", ".5", "-.5", "5.", "00.5", "1e6", "1E6", "1e-05", "1e+16", "2.5e-05",
+                  "-1.5E-3", "123456789.123456789", "-73.98765432", "0.1234567", "1.0000001", "1e22", "1.5e300", "5e-324", "0.00001",
+                  "10000000000000000.0", "0.30000000000000004", "1234567.25", "1.2345e-07"]
+NUMBER_CONTEXTS = {
+    "scalar": ("LAYER TOLERANCE {} END", lambda d: d["tolerance"]),
+    "scalar-float-slot": ("LAYER MAXSCALEDENOM {} END", lambda d: d["maxscaledenom"]),
+    "list-first": ("MAP EXTENT {} 1 2 3 END", lambda d: d["extent"][0]),
+    "list-last": ("MAP EXTENT 1 2 3 {} END", lambda d: d["extent"][3]),
+    "points": ("FEATURE POINTS {} 2 3 {} END END", lambda d: d["points"][0][0]),
+    "pattern": ("STYLE PATTERN 1 {} END END", lambda d: d["pattern"][0][1]),
+    "beside-binding": ("STYLE OFFSET {} [y] END", lambda d: d["offset"][0]),
+}
+
+
+def b_numbers(tier, seed):
+    m = api()
+    fails, n = [], 0
+    num_re = re.compile(r"(?<![\w.\"'\[])[-+]?(?:\d+\.?\d*|\.\d+)(?:[eE][-+]?\d+)?(?![\w.\"'\]])")
+    for lex in NUMBER_LEXEMES:
+        want = float(lex) if any(c in lex for c in ".eE") else int(lex)
+        for cname, (tmpl, get) in NUMBER_CONTEXTS.items():
+            text = tmpl.format(lex, lex) if tmpl.count("{}") == 2 else tmpl.format(lex)
+            key = f"{cname}:{lex}"
+            n += 1
+            try:
+                d = L(text)
+                v = get(d)
+            except Exception as ex:
+                fails.append(dict(key="parse:" + key, text=text, error=_exc(ex)))
+                continue
+            if type(v) is not type(want) or v != want:
+                fails.append(dict(key="value:" + key, text=text, got=repr(v), want=repr(want)))
+                continue
+            # the printed text says the same number (an independent reading of the number tokens of the output)
+            out = m.dumps(d)
+            printed = [float(x) if any(c in x for c in ".eE") else int(x) for x in num_re.findall(out)]
+            if not any(type(p) is type(want) and p == want for p in printed):
+                fails.append(dict(key="printed:" + key, text=text, out=out, want=repr(want)))
+                continue
+            # the output is accepted and gives the same value; a second formatting pass changes nothing
+            try:
+                d2 = L(out)
+                v2 = get(d2)
+                if type(v2) is not type(v) or v2 != v or plain(d2) != plain(d):
+                    fails.append(dict(key="round-trip:" + key, text=text, out=out, got=repr(v2)))
+                elif m.dumps(d2) != out:
+                    fails.append(dict(key="idempotent:" + key, text=text, out=out))
+            except Exception as ex:
+                fails.append(dict(key="round-trip:" + key, text=text, out=out, error=_exc(ex)))
+    return _rec("seam/numbers", f"{len(NUMBER_LEXEMES)} spellings of ints and floats (signs, leading/trailing dot, exponents, 17 significant digits, values whose repr is exponent notation) x {len(NUMBER_CONTEXTS)} numeric positions: value and type, printed number, reload, second pass", n, fails)
+
+
+# ---------------------------------------------------------------------------------------------
+# C03: an independent reader of the printed text (not the Lark grammar, not the printer's helpers)
+# ---------------------------------------------------------------------------------------------
+
+_TOK = re.compile(r'"(?:\\.|[^"\\])*"i?|\'(?:\\.|[^\'\\])*\'i?|\[[^\]]*\]|\S+')
+
+
+def _scalar_ok(tok, e):
+    if isinstance(e, bool):
+        return tok.upper() == ("TRUE" if e else "FALSE")
+    if isinstance(e, (int, float)):
+        body = tok[1:-1] if len(tok) > 1 and tok[0] in "\"'" and tok[-1] == tok[0] else None
+        if body is not None:
+            return body == str(e)           # a number under a string-typed keyword (NAME 7 -> "7")
+        try:
+            is_f = any(c in tok for c in ".eE") and not tok.lower().startswith("0x")
+            v = float(tok) if is_f else int(tok)
+        except ValueError:
+            return False
+        return v == e and isinstance(e, float) == is_f
+    if isinstance(e, str):
+        if tok == e or tok.lower() == e.lower():
+            return True
+        return len(tok) > 1 and tok[0] in "\"'" and tok[-1] == tok[0] and tok[1:-1] == e
+    return False
+
+
+def expected_events(d):
+    """what the text must contain, straight from the dictionary (statement of C03): objects, keywords and values in order"""
+    ev = [("open", str(d.get("__type__", "?")).upper())]
+    for k, v in d.items():
+        if k.startswith("__") and k.endswith("__"):
+            continue
+        K = k.upper()
+        if k == "config" and isinstance(v, dict):
+            for ck, cv in v.items():
+                if not (ck.startswith("__") and ck.endswith("__")):
+                    ev.append(("attr", "CONFIG", [ck, cv]))
+        elif k in gen.KEYVALUE and isinstance(v, dict):
+            ev.append(("open", K))
+            for ck, cv in v.items():
+                if not (ck.startswith("__") and ck.endswith("__")):
+                    ev.append(("pair", ck, cv))
+            ev.append(("close",))
+        elif k == "projection" and isinstance(v, (list, tuple)):
+            ev.append(("open", K))
+            for s in v:
+                ev.append(("item", [s]))
+            ev.append(("close",))
+        elif k in ("points", "pattern") and isinstance(v, (list, tuple)):
+            blocks = v if (v and isinstance(v[0], (list, tuple)) and v[0] and isinstance(v[0][0], (list, tuple))) else [v]
+            for b in blocks:
+                ev.append(("open", K))
+                for pr in b:
+                    ev.append(("item", list(pr)))
+                ev.append(("close",))
+        elif isinstance(v, dict) and "__type__" in v:
+            ev += expected_events(v)
+        elif isinstance(v, (list, tuple)) and v and all(isinstance(x, dict) for x in v):
+            for x in v:
+                ev += expected_events(x)
+        elif k in gen.REPEATED and isinstance(v, (list, tuple)):
+            for x in v:
+                ev.append(("attr", K, [x]))
+        elif isinstance(v, (list, tuple)):
+            if v or k not in gen.PLURAL:
+                ev.append(("attr", K, list(v)))
+        else:
+            ev.append(("attr", K, [v]))
+    ev.append(("close",))
+    return ev
+
+
+def read_events(text):
+    """events of the printed text, one line at a time (the layout of C16: one opener / keyword line / END per line)"""
+    ev = []
+    stack = []
+    for ln in text.split("\n"):
+        t = ln.strip()
+        if not t:
+            continue
+        toks = _TOK.findall(t)
+        head = toks[0]
+        inside = stack[-1] if stack else None
+        if head.upper() == "END" and len(toks) == 1:
+            ev.append(("close",))
+            stack.pop()
+        elif inside in ("kv",):
+            ev.append(("pairline", t, toks))
+        elif inside in ("items",):
+            ev.append(("itemline", t, toks))
+        elif len(toks) == 1 and re.fullmatch(r"[A-Za-z_]+", head):
+            ev.append(("open", head.upper()))
+            kind = "kv" if head.lower() in gen.KEYVALUE else "items" if head.lower() in ("projection", "points", "pattern") else "obj"
+            stack.append(kind)
+        else:
+            ev.append(("attrline", head.upper(), t[len(head):].strip(), toks[1:]))
+    return ev
+
+
+def _values_ok(rest, toks, vals):
+    if len(vals) == 1 and isinstance(vals[0], str) and (rest == vals[0] or " ".join(rest.split()) == " ".join(vals[0].split())):
+        return True                      # written verbatim (expressions, bindings, regular expressions, list expressions)
+    if len(vals) == 1 and _scalar_ok(rest, vals[0]):
+        return True
+    return len(toks) == len(vals) and all(_scalar_ok(t, e) for t, e in zip(toks, vals))
+
+
+def compare_events(want, got):
+    for i, w in enumerate(want):
+        if i >= len(got):
+            return f"text ends early: expected {w!r}"
+        g = got[i]
+        if w[0] == "open":
+            ok = g[0] == "open" and g[1] == w[1]
+        elif w[0] == "close":
+            ok = g[0] == "close"
+        elif w[0] == "attr":
+            if w[1] == "CONFIG" and g[0] == "attrline" and len(g[3]) == 2:
+                # CONFIG keys are case-insensitive names (stored lower-case, written upper-case)
+                ok = g[1] == "CONFIG" and g[3][0][1:-1].lower() == str(w[2][0]).lower() and _scalar_ok(g[3][1], w[2][1])
+            else:
+                ok = g[0] == "attrline" and g[1] == w[1] and _values_ok(g[2], g[3], w[2])
+        elif w[0] == "pair":
+            ok = g[0] == "pairline" and len(g[2]) == 2 and _scalar_ok(g[2][0], w[1]) and _scalar_ok(g[2][1], w[2] if isinstance(w[2], (str, bool)) else str(w[2]))
+        else:
+            ok = g[0] == "itemline" and _values_ok(g[1], g[2], w[1])
+        if not ok:
+            return f"event {i}: dictionary says {w!r}, text says {g!r}"
+    if len(got) > len(want):
+        return f"text has extra content: {got[len(want)]!r}"
+    return None
+
+
+def b_reader(tier, seed):
+    m = api()
+    fails, n = [], 0
+    docs = _docs_as_dicts(tier, seed, 60 if tier != "thorough" else None)
+    for t in SC.object_types():
+        try:
+            docs.append((f"create:{t}", m.create(t, 7.6)))
+        except Exception:
+            pass
+    # dictionaries built / edited through the dict API, with numbers that need all their digits
+    from mappyfile.ordereddict import CaseInsensitiveOrderedDict as CIOD
+    d = L("MAP NAME 'edited' LAYER NAME 'l' TYPE POINT FEATURE POINTS 1 2 END END END END")
+    d["layers"][0]["features"][0]["points"] = [(-73.98765432, 40.74881234), (2.29448271, 48.85837009), (1234567.25, 1.2345e-07)]
+    d["layers"][0]["classes"].append(CIOD(CIOD, [("__type__", "class"), ("name", "added"), ("maxscaledenom", 0.30000000000000004)]))
+    d["layers"][0]["classes"][0]["styles"].append({"__type__": "style", "pattern": [(10.0, 2.5), (1.0000001, 3)], "width": 0.1234567891})
+    d["extent"] = [-180.00000001, -90, 180, 90.5]
+    docs.append(("edited:precise-numbers", d))
+    for key, d in docs:
+        if _has_unescaped_quote(d, '"'):
+            continue
+        n += 1
+        try:
+            text = m.dumps(d)
+        except Exception as ex:
+            fails.append(dict(key="dumps:" + key, error=_exc(ex)))
+            continue
+        why = compare_events(expected_events(d), read_events(text))
+        if why:
+            fails.append(dict(key="reader:" + key, why=why[:400], text=text[:300]))
+    return _rec("seam/independent-reader", "the printed text of generated, corpus, created and dict-API-edited dictionaries read line by line by a reader written for this seam (no Lark, no printer helper): same objects, keywords and values, in order; numbers with all their digits", n, fails)
